@@ -893,3 +893,27 @@ filter:
     rule_collection.apply_filters([sigma_filter])
     result = test_backend.convert(rule_collection)
     assert result == ['EventID=4625 and not User startswith "adm_"']
+
+
+def test_filter_prefix_collision_is_redrawn(test_backend, monkeypatch):
+    """Two filters that draw the same random prefix must not overwrite each other's detections."""
+    import random
+
+    draws = iter(["aaaaaaaaaa", "aaaaaaaaaa", "bbbbbbbbbb"])
+    monkeypatch.setattr(random, "choices", lambda population, k=1: list(next(draws)))
+    filters = [
+        SigmaFilter.from_yaml(f"""
+title: Filter {user}
+{_FILTER_LOGSOURCE}
+filter:
+{_FILTER_RULES}
+  selection:
+      User|startswith: '{user}'
+  condition: not selection
+""")
+        for user in ("adm_", "srv_")
+    ]
+    rule_collection = SigmaCollection.from_yaml(_RULE_YAML)
+    rule_collection.apply_filters(filters)
+    result = test_backend.convert(rule_collection)
+    assert result == ['EventID=4625 and not User startswith "adm_" and not User startswith "srv_"']
